@@ -361,3 +361,40 @@ def check_post_passes(ctx: Ctx) -> None:
                "after the segments are rejoined, closing tags must be un-indented / separated (_fix_closing_tag_spacing) on every path to the return",
                where(w, j))
     ctx.require("R-ATOMIC-post", "segment join in the tag newline handler", len(joins), 1)
+
+
+def check_block_heuristics_indent_free(ctx: Ctx) -> None:
+    """The list / table-row heuristics are applied to lines *inside containers* (a list item nested three levels deep starts
+    at column 4 or more; a quote adds its own prefix). They may therefore look at a line only after its leading whitespace is
+    gone: every use of the raw line parameter is `.lstrip()` / `.strip()`, a hand-off to a sibling heuristic, or a plain
+    emptiness test. A test on the indentation itself (CommonMark's "4 columns = code" rule) is wrong here - the blank line
+    that keeps a closing tag out of the preceding list item would be dropped for deep items."""
+    repo, prog = ctx.repo, ctx.prog
+    mod = "flowmark.linewrapping.block_heuristics"
+    fns = [f for f in repo.functions.values() if f.module.name == mod and f.parent is None and f.cls is None and f.name.startswith("line_is_")
+           and not isinstance(f.node, ast.Lambda) and len(f.params) == 1]
+    ctx.require("R-ATOMIC-block", "line heuristics of block_heuristics", len(fns), 2)
+    quals = {f.qual for f in fns}
+    for f in fns:
+        p = f.params[0]
+        bad: list[str] = []
+        flow = prog.flow(f)
+        from ..loader import parent
+
+        for x in ast.walk(f.node):
+            if not (isinstance(x, ast.Name) and x.id == p and isinstance(x.ctx, ast.Load)):
+                continue
+            # the parameter must still be the raw line here (not re-bound)
+            par = parent(x)
+            if isinstance(par, ast.Attribute) and par.attr in ("lstrip", "strip") and isinstance(parent(par), ast.Call):
+                continue
+            if isinstance(par, ast.Call) and x in par.args:
+                t = prog.resolve_call(f, par)
+                if isinstance(t, list) and len(t) == 1 and t[0].qual in quals:
+                    continue  # handed to a sibling heuristic, which is under the same rule
+            if isinstance(par, (ast.If, ast.While, ast.BoolOp)) or (isinstance(par, ast.UnaryOp) and isinstance(par.op, ast.Not)):
+                continue  # emptiness test
+            bad.append(norm(par)[:50] if par is not None else p)
+        ctx.ob("R-ATOMIC-block", f"{f.qual} :: looks at the line only after its indentation is removed", not bad,
+               "block heuristics run on lines inside nested containers, whose indentation is the container's, not the block's; the raw line is used in "
+               f"{bad or 'nothing but lstrip()/strip()'}", where(f, f.node))
